@@ -76,10 +76,53 @@ def ref_step(crc_bits, byte_bits, poly, width):
     return tuple(crc)
 
 
+def _check_tables(F, R, fn, name, width, poly):
+    """Constant lookup tables indexed by the CRC function: a 256-entry (or 16-entry) table must hold, for every index i,
+    the remainder of i * x^width - the standard byte / nibble table of this polynomial - or the remainder itself shifted
+    for the crc7 register convention; anything else is reported entry by entry.  Returns True when a table is used."""
+    used = False
+    for b, i, s in fn.stmts():
+        if s["k"] == "Assign" and s["rv"]["k"] == "Use" and s["rv"]["op"].get("k") == "const" and s["rv"]["op"].get("tag") == "array" and s["rv"]["op"].get("def"):
+            c = F.consts.get(s["rv"]["op"]["def"])
+            if not c or c.get("elems") is None:
+                continue
+            used = True
+            vals = [int(x) for x in c["elems"]]
+            n = len(vals)
+            if n not in (16, 256):
+                continue
+            k = n.bit_length() - 1
+            def rem(i):
+                r = i << (width - k) if width >= k else i >> (k - width)
+                for _ in range(k):
+                    top = (r >> (width - 1)) & 1
+                    r = (r << 1) & ((1 << width) - 1)
+                    if top:
+                        r ^= poly
+                return r
+            want = [rem(i) for i in range(n)]
+            alt = [(w << 1) & 0xFF for w in want] if width == 7 else None       # crc7 kept left-aligned in a byte
+            badi = [i for i in range(n) if vals[i] != want[i]]
+            if alt is not None:
+                bada = [i for i in range(n) if vals[i] != alt[i]]
+                if len(bada) < len(badi):
+                    badi, want = bada, alt
+            R.require(not badi, fn, name + ":table", "lookup table %s differs from the remainders of the polynomial %#x at %d entr%s; first: entry %#x is %#x, the remainder of %#x * x^%d is %#x" % (
+                s["rv"]["op"]["def"].split("::")[-1], poly | (1 << width), len(badi), "y" if len(badi) == 1 else "ies", badi[0] if badi else 0, vals[badi[0]] if badi else 0, badi[0] if badi else 0, width, want[badi[0]] if badi else 0), fn.loc(b, i),
+                okdetail="lookup table %s holds the %d remainders of the polynomial" % (s["rv"]["op"]["def"].split("::")[-1], n))
+    return used
+
+
 def _run_crc(F, R, name, width, poly, exit_check):
     fn = F.fn("sdcard::proto::" + name)
+    _check_tables(F, R, fn, name, width, poly)
     try:
         return _run_crc_inner(F, R, fn, name, width, poly, exit_check)
+    except RuleUndecided as e:
+        # the byte step is not a GF(2)-affine function of (remainder, byte) on some path - a CRC step always is; a
+        # data-dependent shortcut or a wider-than-byte fold is outside the induction this proof rests on
+        R.bad(fn, name + ":step-not-affine", "%s: %s - equality with the polynomial remainder cannot be established for every message" % (name, e.args[0] if e.args else e), fn.loc(0))
+        return 1, 0
     except (Undecided, KeyError) as e:
         # the proof is by induction over the message: init / one uniform byte step / exit.  A function that is not of that
         # shape (length-dependent fast paths, chunked or padded processing) is outside what this proof establishes, and a
